@@ -483,7 +483,7 @@ pub fn foreign(args: &[String]) {
     let out = arg(args, "--out", "foreign.ndjson");
     let seed: u64 = arg(args, "--seed", "1").parse().unwrap();
     let runs: u64 = arg(args, "--runs", "20").parse().unwrap();
-    let rec = Rec::new(&out, 15);
+    let rec = Rec::new(&out, 60);
     for r in 0..runs {
         let mut rng = StdRng::seed_from_u64(seed * 104729 + r);
         // a real core with 1..4 unflushed entries behind a flushed header
